@@ -95,9 +95,7 @@ func digestProblems(f string, p *dec.Package, st *digStats) []problem {
 			if err != nil || !kibOK(n, sum) {
 				add("installed-size-wrong", fmt.Sprintf("field %q, payload regular files total %d bytes", v, sum))
 			}
-			if f == "ipk" && n == 0 {
-				add("installed-size-zero-not-omitted", "")
-			}
+
 		}
 	case "apk":
 		dh, _ := p.MetaGet("datahash")
